@@ -101,6 +101,67 @@ BASE_ASSUME = [
     "every replayed step compares all datagrams received by all endpoints and the projected tables of all clients with the spec",
 ]
 
+# ---- Engine B for the relay server (TraceServer.tla): concurrent rounds, linearised by TLC -------------
+SERVER_RELAX = {
+    "topeer": {"C01", "C05", "C07"}, "toclient": {"C02", "C05", "C07"},
+    "resp:Allocate": {"C19", "C06"}, "resp:Refresh": {"C06"}, "resp:CreatePermission": {"C07", "C01"},
+    "resp:ChannelBind": {"C08", "C07", "C01"}, "resp:Binding": {"C19"},
+    "state:alloc": {"C06", "C19", "C04"}, "state:perm": {"C07", "C01", "C02", "C06"}, "state:chan": {"C08", "C07", "C01", "C02", "C06"},
+}
+
+
+def server_attribute(ctx, exlines, badrel, module, cfg):
+    """Which class of observation, left out, makes the rejected execution acceptable (at least past the
+    rejected line)?  Those classes name what was wrong, and thereby the properties it contradicts."""
+    import json as _json, os as _os, re as _re
+    line = _json.loads(exlines[badrel])
+    if line.get("e") == "Bad":       # a local check of the driver: it names its owners itself
+        return {"bad"}, set(line.get("owners", []))
+    cur = _os.path.join(ctx.scratch, "attr.ndjson")
+    open(cur, "w").write("\n".join(exlines) + "\n")
+
+    def accepted(relax):
+        rset = "{" + ", ".join('"%s"' % r for r in sorted(relax)) + "}"
+        rc, txt, rec = ctx.tlc(module, cfg, {"TraceFile": '"%s"' % cur, "Relax": rset}, workers=1, timeout=600)
+        return "TRACE ACCEPTED" in txt and "TRACE REJECTED" not in txt
+
+    need = set(SERVER_RELAX)
+    if not accepted(need):
+        return {"?"}, set()          # not explained by observations alone
+    for r in sorted(SERVER_RELAX):   # greedy minimisation: what can be put back without a rejection was not wrong
+        if accepted(need - {r}):
+            need.discard(r)
+    owners = None
+    for r in need:
+        owners = set(SERVER_RELAX[r]) if owners is None else owners & SERVER_RELAX[r]
+    if not owners:
+        owners = set().union(*[SERVER_RELAX[r] for r in need]) if need else set()
+    return need, owners
+
+
+def server_trace(ctx):
+    n = 40 if ctx.tier == "quick" else 600
+    ctx.trace_validate("server", "TestServerTrace", "TraceServer.tla", "TraceServer.cfg", n, attribute=server_attribute)
+
+
+def with_server_trace(run):
+    def f(ctx):
+        if os.environ.get("VERIF_ONLY") != "servertrace":    # (self-test of the machinery: tools/matrix.sh)
+            run(ctx)
+        if not ctx.violations:
+            server_trace(ctx)
+    return f
+
+
+def c12_run(ctx):
+    if os.environ.get("VERIF_ONLY") != "rt":
+        core_run(["MC_clienttxn", "MC_clienttxnLive"],
+                             ["GEN_clienttxnA", "GEN_clienttxnB", "GEN_clienttxnLA", "GEN_clienttxnLB", "GEN_clienttxnLC", "GEN_clienttxnLD", "GEN_clienttxnLE"])(ctx)
+    if not ctx.violations:   # real time, real concurrency: schedules the virtual clock cannot produce (mutex waits)
+        n = 24 if ctx.tier == "quick" else 240
+        ctx.trace_validate("clienttxn-rt", "TestClientTxnRT", "TraceClientTxnRT.tla", "TraceClientTxnRT.cfg", n)
+
+
 def c13_run(ctx):
     n = 30 if ctx.tier == "quick" else 400
     ctx.model_check("MC_clientconn.tla", "MC_clientconn.cfg", None)
@@ -113,6 +174,7 @@ def c18_run(ctx):
         n = 30 if ctx.tier == "quick" else 300
         ctx.trace_validate("clientconn", "TestClientConnTrace", None, None, n, alive_only=True)
         ctx.trace_validate("relay", "TestRelayTrace", None, None, n, alive_only=True)
+        ctx.trace_validate("server", "TestServerTrace", None, None, n, alive_only=True)
 
 
 def c05_run(ctx):
@@ -120,6 +182,8 @@ def c05_run(ctx):
     if not ctx.violations:
         n = 24 if ctx.tier == "quick" else 300
         ctx.trace_validate("relay", "TestRelayTrace", "TraceRelay.tla", "TraceRelay.cfg", n)
+    if not ctx.violations:
+        server_trace(ctx)
 
 
 def c14_run(ctx):
@@ -130,10 +194,10 @@ def c14_run(ctx):
 
 PROPS = {
     "C01": dict(title="client data leaves only toward authorised peers", level="model_checking",
-                run=core_run(["MC_relay", "MC_relayB", "MC_tcp", "MC_iso"], ["GEN_relayA", "GEN_relayB", "GEN_relayD", "GEN_v6", "GEN_tcpB", "GEN_iso"]),
+                run=with_server_trace(core_run(["MC_relay", "MC_relayB", "MC_tcp", "MC_iso"], ["GEN_relayA", "GEN_relayB", "GEN_relayD", "GEN_v6", "GEN_tcpB", "GEN_iso"])),
                 assumptions=BASE_ASSUME + ["the TCP connect target clause is decided on TurnTCP.tla (Connect to a vetoed peer: 403, no connection)"]),
     "C02": dict(title="only authorised peers reach the client", level="model_checking",
-                run=core_run(["MC_relay", "MC_relayB", "MC_v6", "MC_tcp"], ["GEN_relayA", "GEN_relayB", "GEN_relayD", "GEN_v6", "GEN_tcpA", "GEN_recycle"]),
+                run=with_server_trace(core_run(["MC_relay", "MC_relayB", "MC_v6", "MC_tcp"], ["GEN_relayA", "GEN_relayB", "GEN_relayD", "GEN_v6", "GEN_tcpA", "GEN_recycle"])),
                 assumptions=BASE_ASSUME + ["the TCP clause (a peer connection is announced only with a live permission for its source IP, else closed silently) is decided on TurnTCP.tla"]),
     "C03": dict(title="state changes only with valid long-term credentials", level="model_checking",
                 run=core_run(["MC_auth", "MC_noauth", "MC_nonce"], ["GEN_auth", "GEN_noauth", "GEN_nonce", "GEN_users", "GEN_tcpB"]),
@@ -141,7 +205,7 @@ PROPS = {
                                            "bytes are compared and when, for the credential-defect classes of TurnAuth.tla and the mutation classes of Nonce.tla",
                                            "nonce ages 3601..3659 s are a grey band (implementation granularity) that is never probed"]),
     "C04": dict(title="allocations are isolated by 5-tuple", level="model_checking",
-                run=core_run(["MC_iso", "MC_relay"], ["GEN_iso", "GEN_relayD", "GEN_v6", "GEN_tcpB", "GEN_relaygenA"]),
+                run=with_server_trace(core_run(["MC_iso", "MC_relay"], ["GEN_iso", "GEN_relayD", "GEN_v6", "GEN_tcpB", "GEN_relaygenA"])),
                 assumptions=BASE_ASSUME),
     "C05": dict(title="payloads intact, exactly once, truthful attribution", level="model_checking",
                 run=c05_run,
@@ -150,13 +214,13 @@ PROPS = {
                                            "inbound MTU 1600 and 1200, 25 boundary lengths plus random ones up to 9000, single datagrams and bursts of 3-8 that arrive before the application reads; "
                                            "every arrival must be byte-identical to something sent in that direction for that endpoint, once, truthfully attributed; within the limits it must have arrived when the execution settles"]),
     "C06": dict(title="allocation lifetime, refresh and deletion are exact", level="model_checking",
-                run=core_run(["MC_time", "MC_life"], ["GEN_time", "GEN_users", "GEN_relayA", "GEN_lifeA"]),
+                run=with_server_trace(core_run(["MC_time", "MC_life"], ["GEN_time", "GEN_users", "GEN_relayA", "GEN_lifeA"])),
                 assumptions=BASE_ASSUME),
     "C07": dict(title="permissions and channels live one full timeout past their last refresh", level="model_checking",
-                run=core_run(["MC_relay", "MC_relayB", "MC_steps"], ["GEN_relayA", "GEN_relayB", "GEN_steps"]),
+                run=with_server_trace(core_run(["MC_relay", "MC_relayB", "MC_steps"], ["GEN_relayA", "GEN_relayB", "GEN_steps"])),
                 assumptions=BASE_ASSUME + ["instants at which a timer is due are explored only by the gated schedules of TurnServerSteps.tla (a refresh racing the pending expiry callback: known finding D14)"]),
     "C08": dict(title="channel bindings are a bijection inside 0x4000-0x7FFF", level="model_checking",
-                run=core_run(["MC_relay", "MC_relayB"], ["GEN_relayA", "GEN_relayB", "GEN_relayD", "GEN_recycle"]),
+                run=with_server_trace(core_run(["MC_relay", "MC_relayB"], ["GEN_relayA", "GEN_relayB", "GEN_relayD", "GEN_recycle"])),
                 assumptions=BASE_ASSUME),
     "C09": dict(title="no input can crash, wedge or spin an endpoint", level="exploration",
                 run=core_run(["MC_disp_serverudp", "MC_disp_serverstream", "MC_disp_client", "MC_framer"],
@@ -181,8 +245,7 @@ PROPS = {
                              "raw attribute values of every size 0..64 in six fill classes for each of the eleven attributes",
                              "XOR address arithmetic itself lives in pion/stun and is only exercised, not specified"]),
     "C12": dict(title="client transactions: match by ID, retransmit on schedule, terminate", level="model_checking",
-                run=core_run(["MC_clienttxn", "MC_clienttxnLive"],
-                             ["GEN_clienttxnA", "GEN_clienttxnB", "GEN_clienttxnLA", "GEN_clienttxnLB", "GEN_clienttxnLC", "GEN_clienttxnLD", "GEN_clienttxnLE"]),
+                run=c12_run,
                 assumptions=["the real turn.Client runs over a scripted in-memory PacketConn in virtual time; transmissions are counted at the server endpoint at the instants the spec names "
                              "(1 ms before, at, and between retransmission timers), returns of PerformTransaction are classified (response / all-retransmissions-failed / closed / write error)",
                              "two concurrent transactions; RTO 100, 200, 500, 1000, 1600 ms; write failures on the 1st, 2nd and 7th transmission; responses, duplicates, late and foreign-id responses at every modelled instant; Close at any point",
@@ -239,7 +302,7 @@ PROPS = {
                              "NOT decided by this family of technique: data races (a TLA+ model has no memory model; the thorough tier runs the same replays under the race detector, which only monitors the schedules replayed) and lock release over all control-flow paths (only the paths the generated behaviours drive)",
                              "call-outs that take time while the library holds a lock (OnPermissionDeleted, OnChannelDeleted, OnPermissionCreated on the ChannelBind path) cannot take virtual time (synctest does not see mutex waits); they are gated, not slept in"]),
     "C19": dict(title="responses correlated, truthful, idempotent", level="model_checking",
-                run=core_run(["MC_time", "MC_iso", "MC_resv"], ["GEN_time", "GEN_users", "GEN_iso", "GEN_v6", "GEN_v6strict", "GEN_resv", "GEN_relaygenA"]),
+                run=with_server_trace(core_run(["MC_time", "MC_iso", "MC_resv"], ["GEN_time", "GEN_users", "GEN_iso", "GEN_v6", "GEN_v6strict", "GEN_resv", "GEN_relaygenA"])),
                 assumptions=BASE_ASSUME),
 }
 
